@@ -738,3 +738,38 @@ func LineCol(s string, off int) (int, int) {
 	}
 	return line, col
 }
+
+// Span locates one item header inside a well-formed message text.
+type Span struct {
+	Off    int // offset of the format byte
+	NLen   int // number of length bytes
+	Kind   Kind
+	Length int // declared length
+}
+
+// Spans lists the item headers of a well-formed text in pre-order.
+func Spans(text []byte) []Span {
+	var out []Span
+	var rec func(pos int) int
+	rec = func(pos int) int {
+		k, _ := KindOfCode(text[pos] >> 2)
+		nl := int(text[pos] & 3)
+		l := 0
+		for i := 0; i < nl; i++ {
+			l = l<<8 | int(text[pos+1+i])
+		}
+		out = append(out, Span{pos, nl, k, l})
+		p := pos + 1 + nl
+		if k == L {
+			for i := 0; i < l; i++ {
+				p = rec(p)
+			}
+			return p
+		}
+		return p + l
+	}
+	if len(text) > 0 {
+		rec(0)
+	}
+	return out
+}
